@@ -445,7 +445,9 @@ pub fn expand(e: &AEdit, tok: &str, ctx: &EditCtx, budget: Budget, r: &mut StdRn
         "foot-garble" => {
             if let Some(f) = &parts.footer {
                 if let Some(fb) = unb64(f) {
-                    for bit in sample_positions(fb.len() * 8, budget.bits, r) {
+                    // every bit of a short footer; of a long one (up to 64 KiB) a sample
+                    let nbits = if fb.len() > 256 { budget.bits.min(2048) } else { budget.bits };
+                    for bit in sample_positions(fb.len() * 8, nbits, r) {
                         let mut m = fb.clone();
                         m[bit / 8] ^= 1 << (bit % 8);
                         let mut p = parts.clone();
@@ -473,7 +475,18 @@ pub fn expand(e: &AEdit, tok: &str, ctx: &EditCtx, budget: Budget, r: &mut StdRn
         "foot-trunc" => {
             if let Some(f) = &parts.footer {
                 let fc: Vec<char> = f.chars().collect();
-                for l in 1..fc.len() {
+                // every proper prefix of a short segment; of a long one (up to 64 KiB footers) the shortest, the
+                // longest and a sample in between
+                let lens: Vec<usize> = if fc.len() <= 96 {
+                    (1..fc.len()).collect()
+                } else {
+                    let mut v: Vec<usize> = (1..=8).chain(fc.len() - 8..fc.len()).collect();
+                    for _ in 0..16 {
+                        v.push(r.gen_range(9..fc.len() - 8));
+                    }
+                    v
+                };
+                for l in lens {
                     let mut p = parts.clone();
                     p.footer = Some(fc[..l].iter().collect());
                     out.push(p.text());
